@@ -34,7 +34,11 @@ CONFIGS_THOROUGH = [(120, 40, 0.5), (80, 24, 0.4), (200, 60, 0.5)]
 
 
 class Feed:
-    def __init__(self):
+    def __init__(self, lat0=None, lon0=None, f32_probe=True):
+        LAT0 = e4lib.RX_LAT if lat0 is None else lat0
+        LON0 = e4lib.RX_LON if lon0 is None else lon0
+        self.lat0, self.lon0 = LAT0, LON0
+        self.rx_tag = '' if lat0 is None else '|rx=%s,%s' % (LAT0, LON0)
         specs = []
         self.icao = {}
         for i, name in enumerate(ORDER):
@@ -61,15 +65,36 @@ class Feed:
         # aircraft first (and only) heard through DF18 (TIS-B / ADS-R): they count like any other
         specs.append({'kind': 'df18ident', 'icao': 'c00300', 'callsign': 'TISB', 'cf': 2})
         specs.append({'kind': 'df18ident', 'icao': 'c00301', 'callsign': 'ADSR', 'cf': 6})
+        # aircraft whose distance rounds differently at the third decimal when narrowed to f32 first (found by a
+        # deterministic search through the real tracker library): the Distance cell must show the f64 value
+        self.f32_sensitive = []
+        if f32_probe:
+            import struct
+            cand = []
+            for i in range(400):
+                cand.append({'kind': 'pos', 'icao': 'd%05x' % i, 'lat': LAT0 + 0.9 + 0.0037 * i, 'lon': LON0 + 0.4 + 0.0051 * i, 'alt': 30000, 'odd': 0})
+                cand.append({'kind': 'pos', 'icao': 'd%05x' % i, 'lat': LAT0 + 0.9 + 0.0037 * i, 'lon': LON0 + 0.4 + 0.0051 * i, 'alt': 30000, 'odd': 1})
+            cl = e4lib.mkfeed(cand)
+            ct = e4lib.feed2table(''.join(x + '\n' for x in cl).encode(), LAT0, LON0)
+            for r in ct['rows']:
+                d = r['raw']['dist']
+                if d is None or d > 400:
+                    continue
+                d32 = struct.unpack('f', struct.pack('f', d))[0]
+                if ('%.3f' % d32) != ('%.3f' % d) and len(self.f32_sensitive) < 3:
+                    i = int(r['icao'][1:], 16)
+                    self.f32_sensitive.append(r['icao'])
+                    specs.append(cand[2 * i])
+                    specs.append(cand[2 * i + 1])
         ls = e4lib.mkfeed(specs)
         self.lines = [(x + '\n').encode() for x in ls]
         self.bytes = b''.join(self.lines)
-        self.table = e4lib.feed2table(self.bytes)
+        self.table = e4lib.feed2table(self.bytes, LAT0, LON0)
         # two-phase feed for the expiry variant
         self.part1 = b''.join(self.lines[0:6])       # N1, N2
         self.part2 = b''.join(self.lines[6:15])      # S1, S2, E1
-        self.t1 = e4lib.feed2table(self.part1)
-        self.t2 = e4lib.feed2table(self.part2)
+        self.t1 = e4lib.feed2table(self.part1, LAT0, LON0)
+        self.t2 = e4lib.feed2table(self.part2, LAT0, LON0)
         # traffic that arrives AFTER the view controls were used: its data must not depend on the view
         late = [{'kind': 'ident', 'icao': 'c00200', 'callsign': 'LATE'},
                 {'kind': 'pos', 'icao': 'c00200', 'lat': LAT0 + 1.5 * D, 'lon': LON0 - 1.5 * D, 'alt': 21000, 'odd': 0},
@@ -91,7 +116,7 @@ class Feed:
         self.geom_late['MOVER'] = (1.5, -0.5)
         self.late_lines = [(x + '\n').encode() for x in e4lib.mkfeed(late)]
         self.late_bytes = b''.join(self.late_lines)
-        self.table_late = e4lib.feed2table(self.bytes + self.late_bytes)
+        self.table_late = e4lib.feed2table(self.bytes + self.late_bytes, LAT0, LON0)
         self.locations = ['(%s,%s,%s)' % (n.lower(), round(LAT0 + GEOM[n][0] * D, 4), round(LON0 + GEOM[n][1] * D, 4))
                           for n in ORDER] + ['(rx,%s,%s)' % (LAT0, LON0)]
 
@@ -108,7 +133,7 @@ def key_step(data, letters):
 
 def compile_script(fd, kind, cfg, seq, delivery, alphabet, filler=True, touchscreen=False):
     cols, rows, scale = cfg
-    argv = list(e4lib.BASE_ARGV) + ['--scale=%s' % scale, '--disable-lat-long']
+    argv = ['--lat=%s' % fd.lat0, '--long=%s' % fd.lon0, '--scale=%s' % scale, '--disable-lat-long']
     if touchscreen:
         argv.append('--touchscreen')
     steps = []
@@ -158,9 +183,9 @@ def compile_script(fd, kind, cfg, seq, delivery, alphabet, filler=True, touchscr
                   key_step(KEYS['F1'], ['F1']), s3,
                   key_step(KEYS['Enter'], ['Enter']), s3, {'op': 'snap', 'name': 'map2'}]
     steps.append({'op': 'quit', 'hex': '71', 'letters': ['q']})
-    key = 'radar|%dx%d|scale=%s|feed=%s%s|%s|%s|view=%s' % (cols, rows, scale, kind, '+ts' if touchscreen else '',
-                                                            'filler' if filler else 'nofiller', delivery,
-                                                            ','.join(seq) or 'none')
+    key = 'radar|%dx%d|scale=%s|feed=%s%s|%s|%s|view=%s%s' % (cols, rows, scale, kind, '+ts' if touchscreen else '',
+                                                              'filler' if filler else 'nofiller', delivery,
+                                                              ','.join(seq) or 'none', fd.rx_tag)
     return {'binary': 'radar', 'oracle': 'c18', 'key': key, 'argv': argv, 'size': [cols, rows], 'filler': filler,
             'steps': steps, 'kind': kind, 'labels': labels, 'expect': expect, 'expect_after': expect_after,
             'geom_late': ({k: list(v) for k, v in fd.geom_late.items()} if kind == 'aircraft-late' else None), 'events': list(seq), 'touchscreen': touchscreen,
@@ -401,7 +426,7 @@ def judge(script, obs):
 e4lib.register_judge('c18', judge)
 
 
-def enumerate_scripts(tier, fd):
+def enumerate_scripts(tier, fd, fd_mer=None):
     out = []
     parts = {}
     depth = 2 if tier == 'quick' else 3
@@ -451,6 +476,19 @@ def enumerate_scripts(tier, fd):
         if all(a in VIEW for a in seq):
             out.append(compile_script(fd, 'aircraft-late', cfgs[0], seq, 'batched', VIEW))
     parts['traffic after view sequences (depth<=%d + two long pans)' % late_depth] = len(out) - n0
+    # a receiver next to the prime meridian: aircraft and markers on both sides of longitude 0
+    if fd_mer is not None:
+        n0 = len(out)
+        mdepth = 1 if tier == 'quick' else 2
+        mseqs = [()]
+        for k in range(1, mdepth + 1):
+            mseqs += list(itertools.product(names, repeat=k))
+        for kind in ('aircraft', 'locations'):
+            for seq in mseqs:
+                out.append(compile_script(fd_mer, kind, cfgs[0], seq, 'separated', VIEW))
+        out.append(compile_script(fd_mer, 'aircraft-late', cfgs[0], (), 'separated', VIEW))
+        out.append(compile_script(fd_mer, 'aircraft', cfgs[0], (), 'separated', VIEW_TS, touchscreen=True))
+        parts['receiver at %s,%s (traffic straddles longitude 0), view depth<=%d' % (fd_mer.lat0, fd_mer.lon0, mdepth)] = len(out) - n0
     return out, parts
 
 
@@ -468,13 +506,15 @@ ASSUMPTIONS = [
 
 def run(tier):
     fd = Feed()
-    scripts, parts = enumerate_scripts(tier, fd)
+    fd_mer = Feed(e4lib.RX_LAT, -0.1)   # same latitude as the base feed (same Mercator stretch), longitude next to 0
+    scripts, parts = enumerate_scripts(tier, fd, fd_mer)
     ex = e4lib.Explorer('C18', tier)
     try:
         ex.run(scripts)
         cov = {'exhaustive': not ex.machinery,
                'bound': {'view_alphabet': list(VIEW), 'touchscreen_alphabet': list(VIEW_TS), 'parts': parts,
                          'aircraft': len(fd.table['rows']), 'feed_lines': len(fd.lines), 'd_deg': D,
+                         'f32_sensitive_distance_aircraft': fd.f32_sensitive + fd_mer.f32_sensitive,
                          'expected_table': fd.table['rows'][:3]},
                'rule': 'one script per (feed kind, terminal/scale config, view sequence, delivery); distinct = distinct script key; '
                        'non-trivial = all snapshots taken and judged',
